@@ -109,6 +109,15 @@ Definition run (args : list bytes) : bytes :=
     else if Z.eqb mode 2 then
       let '(s3, st3, outb, out) := with_sare r0 2 (FProg 2) (fun s st => exec bd s st) st0 in
       report st3 out (Some (reraise s3)) (is_normal outb)
+    else if Z.leb 3 mode then
+      (* the context object is used again after its with block (what the with raised was caught):
+         mode 3: ctx.force_reraise()      mode 4: ctx.capture(); ctx.force_reraise() *)
+      let '(s3, st3, outb, _) := with_sare r0 2 (FProg 2) (fun s st => exec bd s st) (enter_orig (z 2%nat) (z 3%nat)) in
+      match (if Z.eqb mode 4 then do_capture_stmt (FProg 4) s3 st3 else (s3, st3, Normal)) with
+      | (s4, st4, Raised j) => report (pop st4) (Raised j) (Some (reraise s4)) (is_normal outb)
+      | (s4, st4, Normal) =>
+          let '(s5, st5, out) := do_force (FProg 3) s4 st4 in report (pop st5) out (Some (reraise s5)) (is_normal outb)
+      end
     else
       let st := enter_orig (z 2%nat) (z 3%nat) in
       match do_capture_stmt (FProg 2) (sare_new r0 2 st) st with
